@@ -91,8 +91,137 @@ func (c *Ctx) wrappers() []*Wrapper {
 			}
 		})
 	}
+	for _, fn := range p.Funcs {
+		if !p.InScope(fn) {
+			continue
+		}
+		for _, ci := range callsIn(fn) {
+			if CalleeName(ci) != "(net/http.Handler).ServeHTTP" || len(ci.Common().Args) != 2 {
+				continue
+			}
+			n := namedOf(stripConv(ci.Common().Args[0]).Type())
+			for _, w := range out {
+				if n != nil && types.Identical(n, w.Named) {
+					dup := false
+					for _, f := range w.Creators {
+						if f == fn {
+							dup = true
+						}
+					}
+					if !dup {
+						w.Creators = append(w.Creators, fn)
+					}
+				}
+			}
+		}
+	}
+	for _, w := range out {
+		// keep only the functions that hand the wrapper to a handler (a pool's New func merely allocates)
+		var keep []*ssa.Function
+		for _, f := range w.Creators {
+			hands := false
+			for _, ci := range callsIn(f) {
+				if CalleeName(ci) == "(net/http.Handler).ServeHTTP" || CalleeName(ci) == "(*net/http/httputil.ReverseProxy).ServeHTTP" {
+					hands = true
+				}
+			}
+			if hands {
+				keep = append(keep, f)
+			}
+		}
+		w.Creators = keep
+	}
 	sort.Slice(out, func(i, j int) bool { return out[i].Key < out[j].Key })
 	return out
+}
+
+// rwFreshPerRequest: the wrapper a request is served through starts from a clean state: it is a
+// fresh allocation, or every field of it is re-initialised before the downstream handler runs.
+func (c *Ctx) rwFreshPerRequest(w *Wrapper) {
+	p := c.P
+	st := w.Named.Underlying().(*types.Struct)
+	for _, cr := range w.Creators {
+		ckey := w.Key + "@" + p.FuncKey(cr)
+		var handed ssa.Value
+		var at ssa.Instruction
+		for _, ci := range callsIn(cr) {
+			n := CalleeName(ci)
+			if (n == "(net/http.Handler).ServeHTTP" || n == "(*net/http/httputil.ReverseProxy).ServeHTTP") && len(ci.Common().Args) >= 2 {
+				a := ci.Common().Args[0]
+				if n != "(net/http.Handler).ServeHTTP" {
+					a = ci.Common().Args[1]
+				}
+				if nt := namedOf(stripConv(a).Type()); nt != nil && types.Identical(nt, w.Named) {
+					handed, at = stripConv(a), ci
+				}
+			}
+		}
+		if handed == nil {
+			continue
+		}
+		root := rootOf(handed)
+		for i := 0; i < 4; i++ { // look through local variable cells holding the pointer
+			a, isAlloc := root.(*ssa.Alloc)
+			if !isAlloc {
+				break
+			}
+			if _, isPtrCell := a.Type().(*types.Pointer).Elem().Underlying().(*types.Pointer); !isPtrCell {
+				break
+			}
+			var stored ssa.Value
+			n := 0
+			if refs := a.Referrers(); refs != nil {
+				for _, r := range *refs {
+					if st, ok := r.(*ssa.Store); ok && st.Addr == a {
+						stored = st.Val
+						n++
+					}
+				}
+			}
+			if n != 1 {
+				break
+			}
+			root = rootOf(stripConv(stored))
+		}
+		if _, isAlloc := root.(*ssa.Alloc); isAlloc {
+			c.Pass("wrapper-fresh-per-request", ckey, p.InstrPos(at), "the writer handed to the downstream handler is allocated for this request")
+			continue
+		}
+		// recycled object: which fields are (re)initialised before the hand-over?
+		set := map[string]bool{}
+		sp := c.rwSpec(w)
+		sp.P = p
+		for _, t := range sp.Walk(cr) {
+			ni := t.Index("next", 0)
+			if ni < 0 {
+				continue
+			}
+			cur := map[string]bool{}
+			for _, it := range t.Items[:ni] {
+				if strings.HasPrefix(it.Label, "store ") {
+					cur[strings.SplitN(strings.TrimPrefix(it.Label, "store "), " ", 2)[0]] = true
+				}
+			}
+			if len(set) == 0 {
+				set = cur
+			} else {
+				for k := range set {
+					if !cur[k] {
+						delete(set, k)
+					}
+				}
+			}
+		}
+		var missing []string
+		for i := 0; i < st.NumFields(); i++ {
+			if !set[st.Field(i).Name()] {
+				missing = append(missing, st.Field(i).Name())
+			}
+		}
+		c.Check(len(missing) == 0, "wrapper-fresh-per-request", ckey, p.InstrPos(at),
+			"the recycled writer has every field re-initialised before the handler runs",
+			fmt.Sprintf("the writer handed to the downstream handler is recycled (%s) and field(s) %v keep the previous request's value: state of an earlier response (e.g. a reached limit, buffered bytes, a sent-header flag) leaks into this one", p.Desc(root, nil), missing))
+	}
 }
 
 // embCall: is ci a call of method `name` on the embedded ResponseWriter of wrapper w (directly, or
@@ -159,6 +288,10 @@ func (c *Ctx) rwSpec(w *Wrapper) *Spec {
 				return "next-unwrapped"
 			case "compress/gzip.NewWriterLevel":
 				return "gzip-writer"
+			case "(*bytes.Buffer).Write":
+				if strings.Contains(p.Desc(ci.Common().Args[0], fr), "fld:"+w.Key+".") {
+					return "buffer-write"
+				}
 			case "(*compress/gzip.Writer).Write":
 				return "gzip-write"
 			case "net/http.Error":
@@ -452,6 +585,7 @@ func (c *Ctx) rwHeaderTypestate(w *Wrapper) {
 	} else if f.Deferring {
 		kind = "deferring"
 	}
+	c.rwFreshPerRequest(w)
 	c.Pass("wrapper-classified", w.Key, pos, fmt.Sprintf("WriteHeader is %s; commit-implied flags %v; flags whose falsity means nothing was sent %v", kind, keys(f.Excusers), keys(f.CommitFlags)))
 	if kind == "mixed" {
 		c.Undecided("wrapper-classified", w.Key+"/WriteHeader", pos, "WriteHeader forwards on some paths and records on others; the typestate rules do not model this")
